@@ -3,7 +3,7 @@
 From Coq Require Import List NArith ZArith QArith Bool String.
 From Qryn Require Import model.TqSql model.Traceql model.TraceqlPlan model.TraceqlSem model.TraceqlCase
      proofs.TraceqlAnalyzeProofs proofs.TraceqlEvalProofs proofs.TraceqlSelectorProofs
-     model.TraceqlPortions proofs.TraceqlPortionsProofs proofs.TraceqlIndexSearchProofs proofs.TraceqlCorrectProofs.
+     model.TraceqlPortions proofs.TraceqlPortionsProofs proofs.TraceqlIndexSearchProofs proofs.TraceqlCorrectProofs proofs.TraceqlAggProofs.
 From Coq Require Import Sorted Lia.
 Import ListNotations.
 Open Scope string_scope.
@@ -139,4 +139,27 @@ Proof.
     split; [vm_compute; reflexivity|].
     destruct (plan (q1 e0 AONone) MSearch c0 1) as [s| |] eqn:E; [|vm_compute in E; discriminate|vm_compute in E; discriminate].
     exists s. split; [reflexivity|]. vm_compute in E. injection E as <-. vm_compute. split; reflexivity.
+Qed.
+
+(* traceql_correct_agg: the additional guards hold of  | avg(.n) > 6.5  and of  | max(duration) >= 1.5s ; with the first one
+   the search of single_hyps (limit 1) returns t2 again (its span has n = 9; t1's matched span has n = 7 but t2 is newer),
+   with  | count() > 1  nothing (no trace has two matched spans). *)
+Definition ag_avg : aggregator := {| g_fn := AgAvg; g_attr := ".n"; g_cmp := CGt; g_num := "6.5"; g_meas := ""; g_ffmt := None; g_durf := None |}.
+Definition ag_dur : aggregator := {| g_fn := AgMax; g_attr := "duration"; g_cmp := CGe; g_num := "1.5"; g_meas := "s"; g_ffmt := None; g_durf := None |}.
+Definition ag_cnt : aggregator := {| g_fn := AgCount; g_attr := ""; g_cmp := CGt; g_num := "1"; g_meas := ""; g_ffmt := None; g_durf := None |}.
+Example agg_hyps :
+  agg_guard ag_avg = true /\ agg_lit_exact ag_avg = true /\ agg_guard ag_dur = true /\ agg_lit_exact ag_dur = true
+  /\ agg_guard ag_cnt = true /\ agg_lit_exact ag_cnt = true
+  /\ (exists s, plan (q2 e0 ag_avg AONone) MSearch c0 1 = Ok s /\ index_rows c0 d0 s = Some [("t2", ["s1"])])
+  /\ (exists s, plan (q2 e0 ag_dur AONone) MSearch c0 1 = Ok s /\ index_rows c0 d0 s = Some [("t1", ["s1"])])
+  /\ (exists s, plan (q2 e0 ag_cnt AONone) MSearch c0 1 = Ok s /\ index_rows c0 d0 s = Some []).
+Proof.
+  do 6 (split; [vm_compute; reflexivity|]).
+  split; [|split].
+  - destruct (plan (q2 e0 ag_avg AONone) MSearch c0 1) as [s| |] eqn:E; [|vm_compute in E; discriminate|vm_compute in E; discriminate].
+    exists s. split; [reflexivity|]. vm_compute in E. injection E as <-. vm_compute. reflexivity.
+  - destruct (plan (q2 e0 ag_dur AONone) MSearch c0 1) as [s| |] eqn:E; [|vm_compute in E; discriminate|vm_compute in E; discriminate].
+    exists s. split; [reflexivity|]. vm_compute in E. injection E as <-. vm_compute. reflexivity.
+  - destruct (plan (q2 e0 ag_cnt AONone) MSearch c0 1) as [s| |] eqn:E; [|vm_compute in E; discriminate|vm_compute in E; discriminate].
+    exists s. split; [reflexivity|]. vm_compute in E. injection E as <-. vm_compute. reflexivity.
 Qed.
